@@ -13,6 +13,7 @@ struct G {
     ncond: u64,
     arity: u64,
     max_depth: usize,
+    refbr: bool, // also emit the reference-carrying branches inside a funcref-typed block (DESIGN 10.1)
 }
 
 impl G {
@@ -20,6 +21,21 @@ impl G {
         let k = self.ncond % 8;
         self.ncond += 1;
         json!({"o":"cond","k":k})
+    }
+    /// closed item: block (result funcref) ; reference ; br_on_non_null | br_on_cast | br_on_cast_fail 0 ;
+    /// [a reference when the fall-through left none] ; end ; drop
+    fn ref_item(&mut self, budget: &mut i32) {
+        let rf = if self.rng.gen_bool(0.5) { "rnull" } else { "rfunc" };
+        let b = ["bronn", "brc", "brcf"][self.rng.gen_range(0..3)];
+        self.body.push(json!({"o":"block","r":1,"t":"ref"}));
+        self.body.push(json!({"o":rf}));
+        self.body.push(json!({"o":b,"d":0}));
+        if b == "bronn" {
+            self.body.push(json!({"o":"rfunc"}));
+        }
+        self.body.push(json!({"o":"end"}));
+        self.body.push(json!({"o":"drop"}));
+        *budget -= 6;
     }
     /// emit a sequence of instructions inside the current construct; returns true if it ended in an
     /// unconditional transfer
@@ -31,7 +47,9 @@ impl G {
             }
             let depth = self.kinds.len();
             let r = self.rng.gen_range(0..100);
-            if r < 30 {
+            if self.refbr && r < 12 && *budget >= 6 {
+                self.ref_item(budget);
+            } else if r < 30 {
                 let k = self.nop % 8;
                 self.nop += 1;
                 self.body.push(json!({"o":"op","k":k}));
@@ -91,7 +109,9 @@ impl G {
                 return true;
             } else if r < 88 {
                 // a reference (null: the branch is taken; not null: it falls through), br_on_null, drop
-                if let Some(d) = self.pick_depth(false) {
+                if self.refbr && *budget >= 6 {
+                    self.ref_item(budget);
+                } else if let Some(d) = self.pick_depth(false) {
                     let rf = if self.rng.gen_bool(0.5) { "rnull" } else { "rfunc" };
                     self.body.push(json!({"o":rf}));
                     self.body.push(json!({"o":"bron","d":d}));
@@ -201,7 +221,7 @@ fn target_kinds(body: &[J], i: usize) -> Vec<&'static str> {
     };
     let c = &body[i];
     match c["o"].as_str().unwrap() {
-        "br" | "br_if" | "bron" => vec![kind(c["d"].as_u64().unwrap())],
+        "br" | "br_if" | "bron" | "bronn" | "brc" | "brcf" => vec![kind(c["d"].as_u64().unwrap())],
         "br_table" => {
             let mut v: Vec<&'static str> = c["ds"].as_array().unwrap().iter().map(|x| kind(x.as_u64().unwrap())).collect();
             v.push(kind(c["d"].as_u64().unwrap()));
@@ -217,6 +237,9 @@ fn modes_at(body: &[J], i: usize) -> Vec<&'static str> {
         return vec![]; // nothing is injected on the try_table itself
     }
     let mut m = vec!["before", "after"];
+    if body[i]["t"] == "ref" {
+        return m; // the funcref-typed block of the reference-branch item: no special mode yet (DESIGN 10.1)
+    }
     if o == "op" || o == "nop" || i + 1 == body.len() {
         m.push("alternate");
         m.push("empty_alternate");
@@ -247,7 +270,7 @@ pub fn gen_cases(seed: u64, n: usize, max_len: i32, max_depth: usize, start_id: 
             1 => 2,
             _ => 0,
         };
-        let mut g = G { rng: StdRng::seed_from_u64(rng.gen()), body: vec![], kinds: vec![], nop: 0, ncond: 0, arity, max_depth };
+        let mut g = G { rng: StdRng::seed_from_u64(rng.gen()), body: vec![], kinds: vec![], nop: 0, ncond: 0, arity, max_depth, refbr: out.len() * 10 >= n * 9 };
         let mut budget = rng.gen_range(3..=max_len);
         let mut transferred = false;
         // top level: a few sequences
